@@ -169,6 +169,22 @@ def handlePtree (smart spans syn kw endN ik idata tbl names groups skip start pr
           | some (.ok t) => "ok " ++ ";".intercalate (t.preorder.map fun sp => withOrig inp sp.s sp.e)
   | _, _, _, _, _, _, _, _ => "bad-op"
 
+/-- a sequence of `get_orig_text` calls with several texts: the model has no memory, every call is answered
+from its own text -/
+def handleGseq (texts calls : String) : String :=
+  match (texts.splitOn "|").mapM parseCps,
+      (calls.splitOn ";").mapM (fun c => (c.splitOn ".").mapM (·.toNat?)) with
+  | some texts, some calls =>
+    let rs := calls.map fun c =>
+      match c with
+      | [ti, sl, sc, el, ec] =>
+        match texts[ti]? with
+        | some t => showOrig (getOrigText B (origLines (.str t)) ⟨sl, sc⟩ ⟨el, ec⟩)
+        | none => "?"
+      | _ => "?"
+    "ok " ++ ";".intercalate rs
+  | _, _ => "bad-op"
+
 def handle (line : String) : String :=
   match splitWs line with
   | [op, _cfgid, spans, syn, kw, endN, ik, idata, tbl] =>
@@ -200,6 +216,7 @@ def handle (line : String) : String :=
         | .error e => "err " ++ e.name
         | .ok (_, _, all) => "ok " ++ ";".intercalate (all.map fun n => withOrig inp n.span.s n.span.e)
     | _, _, _, _, _ => "bad-op"
+  | ["gseq", texts, calls] => handleGseq texts calls
   | ["ptree", _cfgid, _gid, smart, spans, syn, kw, endN, ik, idata, tbl, names, groups, skip, start, prods] =>
     handlePtree smart spans syn kw endN ik idata tbl names groups skip start prods
   | _ => "bad-op"
